@@ -23,6 +23,8 @@ def exhaustive(ctx, props, maxn, max_args):
         for shape in G.shapes(n):
             for evs in G.leaf_variants(shape):
                 docs.append(evs)
+                if n >= 2:
+                    docs.append(G.relabel(evs))     # look-alike siblings: identity, not equality, must decide
     batch = []
     for evs in docs:
         ref0 = T.ref_from_spec(T.spec_fold(evs, cfg))
@@ -58,6 +60,8 @@ def random_histories(ctx, props, count, steps, maxnodes):
     batch = []
     for _ in range(count):
         evs = G.random_doc(rng, maxnodes)
+        if rng.random() < 0.3:
+            evs = G.relabel(evs)
         ops, exp = R.gen_history(rng, evs, cfg, steps)
         batch.append((evs, ops, exp))
     run_batch(ctx, cfg, batch, props)
